@@ -283,3 +283,73 @@ func (g *Gen) KeywordCatalogue() []*Case {
 	}
 	return out
 }
+
+// SearchCatalogue: every Atlas Search operator × wrapper (top level,
+// compound.must, compound.filter+should, embeddedDocument.operator) × a path
+// that is one of the ordinary field names. The same operator therefore occurs
+// on several paths within one corpus — what history-dependence through shared
+// operator tables needs in order to show.
+func (g *Gen) SearchCatalogue(paths []string) []*Case {
+	type opB struct {
+		name string
+		mk   func(path string) *Node
+	}
+	l := func(cl, slot string) *Node { return g.LitClass(cl, "scat-"+slot) }
+	P := func(p string) *Node { return FreeS(p) }
+	ops := []opB{
+		{"text", func(p string) *Node { return ObjN("text", ObjN("query", l("str", "text"), "path", P(p))) }},
+		{"phrase", func(p string) *Node { return ObjN("phrase", ObjN("query", l("str", "phrase"), "path", P(p), "slop", FreeI(1))) }},
+		{"autocomplete", func(p string) *Node { return ObjN("autocomplete", ObjN("query", l("str", "autocomplete"), "path", P(p))) }},
+		{"wildcard", func(p string) *Node { return ObjN("wildcard", ObjN("query", l("str", "wildcard"), "path", P(p), "allowAnalyzedField", FreeB(true))) }},
+		{"regex", func(p string) *Node { return ObjN("regex", ObjN("query", l("str", "regex"), "path", P(p))) }},
+		{"equals", func(p string) *Node { return ObjN("equals", ObjN("path", P(p), "value", l(g.pick("str", "num", "oid", "date", "bool"), "equals"))) }},
+		{"in", func(p string) *Node { return ObjN("in", ObjN("path", P(p), "value", ArrN(l("str", "in"), l("num", "in")))) }},
+		{"range", func(p string) *Node { return ObjN("range", ObjN("path", P(p), "gte", l("num", "range"), "lt", l("num", "range"))) }},
+		{"range-date", func(p string) *Node { return ObjN("range", ObjN("path", P(p), "gt", l("date", "range"))) }},
+		{"near", func(p string) *Node { return ObjN("near", ObjN("path", P(p), "origin", l("num", "near"), "pivot", FreeI(2))) }},
+		{"near-geo", func(p string) *Node {
+			return ObjN("near", ObjN("path", P(p), "origin", ObjN("type", FreeS("Point"), "coordinates", g.coord()), "pivot", FreeI(1000)))
+		}},
+		{"exists", func(p string) *Node { return ObjN("exists", ObjN("path", P(p))) }},
+		{"queryString", func(p string) *Node { return ObjN("queryString", ObjN("defaultPath", P(p), "query", l("str", "queryString"))) }},
+		{"moreLikeThis", func(p string) *Node { return ObjN("moreLikeThis", ObjN("like", ObjN(p, l("str", "moreLikeThis")))) }},
+		{"geoWithin-circle", func(p string) *Node {
+			return ObjN("geoWithin", ObjN("path", P(p), "circle", ObjN("center", ObjN("type", FreeS("Point"), "coordinates", g.coord()), "radius", l("num", "geo-radius"))))
+		}},
+		{"geoWithin-box", func(p string) *Node {
+			return ObjN("geoWithin", ObjN("path", P(p), "box", ObjN("bottomLeft", ObjN("type", FreeS("Point"), "coordinates", g.coord()), "topRight", ObjN("type", FreeS("Point"), "coordinates", g.coord()))))
+		}},
+		{"geoWithin-geometry", func(p string) *Node {
+			return ObjN("geoWithin", ObjN("path", P(p), "geometry", ObjN("type", FreeS("Polygon"), "coordinates", ArrN(ArrN(g.coord(), g.coord(), g.coord())))))
+		}},
+		{"geoShape", func(p string) *Node {
+			return ObjN("geoShape", ObjN("path", P(p), "relation", FreeS("intersects"), "geometry", ObjN("type", FreeS("Polygon"), "coordinates", ArrN(ArrN(g.coord(), g.coord(), g.coord())))))
+		}},
+		{"span-term", func(p string) *Node { return ObjN("span", ObjN("term", ObjN("path", P(p), "query", l("str", "span")))) }},
+	}
+	var out []*Case
+	i := 0
+	for _, op := range ops {
+		for _, p := range paths {
+			for w := 0; w < 4; w++ {
+				o := op.mk(p)
+				st := ObjN("index", KeepS("idx_scat"))
+				switch w {
+				case 0:
+					st.Set(o.Keys[0], o.Vals[0])
+				case 1:
+					st.Set("compound", ObjN("must", ArrN(o)))
+				case 2:
+					st.Set("compound", ObjN("filter", ArrN(o), "should", ArrN(op.mk(p)), "minimumShouldMatch", FreeI(0)))
+				case 3:
+					st.Set("embeddedDocument", ObjN("path", FreeS("items"), "operator", ObjN("compound", ObjN("mustNot", ArrN(o)))))
+				}
+				db, coll := "db"+g.letters(5), "coll"+g.letters(5)
+				cmd := cmdTail(ObjN("aggregate", collN(coll), "pipeline", ArrN(ObjN(g.pick("$search", "$searchMeta"), st), ObjN("$limit", KeepI(5))), "cursor", keep(ObjN())), db)
+				out = append(out, g.Case(CaseOpts{Verb: "aggregate", Carrier: Carriers[i%3], Comp: Comps[(i/3)%3], DB: db, Coll: coll, Cmd: cmd}))
+				i++
+			}
+		}
+	}
+	return out
+}
